@@ -18,8 +18,12 @@
                         (ng, ng2 the two name groups, brace arguments; no
                         further arguments of \begin; not a math environment
                         name, not a verbatim name)
+     DItem e n args body
+                        a list item  \item <args> body : the body extends to
+                        the next \item, an \end, a closing brace or the end of
+                        the input
      Arg sp k o body c  an argument group of kind k with its optional spacer
-   NOT covered: \item, fixed-signature commands
+   NOT covered: fixed-signature commands
    (\section, \textbf, ...: Tables.signatures), the second argument pass
    (\a{x}[y]), \newcommand-style special commands, verbatim environments,
    unclosed constructs (tolerant mode).
@@ -28,12 +32,15 @@
      EText t / EGroup GBrace (map tree body) (tpos o) /
      ECmd (strip (ttext n)) (map tree_arg args) [] (tpos e) /
      EMath k (map tree body) (tpos o) /
-     ENamed (strip (arg_string (tree_arg ng))) [] (map tree body) (tpos e);
+     ENamed (strip (arg_string (tree_arg ng))) [] (map tree body) (tpos e) /
+     ECmd (strip (ttext n)) (map tree_arg args) (map tree body) (tpos e)  [item];
    an argument is EGroup k (map tree body) (tpos o).
 
    Parameters of `wf`: SK, the names of the environments read verbatim
    (Tables.skip_env_names ++ the user's list: all_skip user), and mm, "read in
-   math mode" (recorded for \item, which the present grammar does not have).
+   math mode" (inside a math region; inherited by argument groups and
+   environment bodies; reset by a free-standing brace group and by an item
+   body): \item is an AssertionError in math mode.
 
    The well-formedness conditions were found by doing the proof; each is
    stated below as an equation (the C02pp_wf_ theorems) with the behaviour of the code that
@@ -181,6 +188,16 @@ Proof. exact wf_env. Qed.
 Theorem C02pp_env_name : forall ng, env_name ng = strip (arg_string (tree_arg ng)).
 Proof. reflexivity. Qed.
 
+(* an item: not in math mode (read_expr asserts), `e` an Escape token, `n` the
+   name token `item`, arguments as for a command (brackets before braces,
+   well-formed).  Its body is not closed by a token of its own, so the
+   conditions on the body are part of the FOLLOW condition below. *)
+Theorem C02pp_wf_item : forall SK mm e n args body,
+  wf SK mm (DItem e n args body) =
+  negb mm && is_tc TEscape e && str_eqb (ttext n) s_item &&
+  brackets_first (map arg_kind args) && forallb (wf_arg SK mm) args.
+Proof. exact wf_item. Qed.
+
 (* a sequence read by a loop of context x and followed by `rest`:
    every element (1) does not START with the closer of the loop (CTop: nothing
    closes; CGroup k: the end token of k; CMath k: the end token of k) - the
@@ -188,9 +205,16 @@ Proof. reflexivity. Qed.
    well-formed; (3) is followed by tokens its follow condition allows. *)
 Theorem C02pp_wf_seq : forall SK mm x d ds rest,
   wf_seq SK mm x (d :: ds) rest =
-  negb (closes x (dhead d)) && wf SK mm d && follows_ok d (flat_list ds ++ rest) &&
-  wf_seq SK mm x ds rest.
-Proof. intros. exact (seq_wf_cons (wf SK mm) x d ds rest). Qed.
+  negb (closes x (dhead d)) && allowed x d && wf SK mm d &&
+  follows_ok SK d (flat_list ds ++ rest) && wf_seq SK mm x ds rest.
+Proof. exact wf_seq_cons. Qed.
+
+(* (1b) an \item is not an element of an item body: read_item stops in front
+   of it (it becomes the next sibling); an item body element does not start
+   with `}` either (CItem below) *)
+Theorem C02pp_allowed : forall x d,
+  allowed x d = match x with CItem => negb (is_item d) | _ => true end.
+Proof. reflexivity. Qed.
 
 Theorem C02pp_closes : forall x t,
   closes x t = match x with
@@ -198,6 +222,7 @@ Theorem C02pp_closes : forall x t,
                | CGroup k => is_group_end k t
                | CMath k => is_math_end k t
                | CEnv => false
+               | CItem => is_tc TGroupEnd t
                end.
 Proof. reflexivity. Qed.
 
@@ -208,8 +233,8 @@ Proof. reflexivity. Qed.
      there is no `[`: the bracket loop would attach it;
    - if it has a brace argument, the very next token is not `[`: the SECOND
      pass of read_args (entered without skipping a spacer) would attach it. *)
-Theorem C02pp_follows_ok : forall e n args rest,
-  follows_ok (DCmd e n args) rest =
+Theorem C02pp_follows_ok : forall SK e n args rest,
+  follows_ok SK (DCmd e n args) rest =
   stopsb TGroupBegin rest &&
   (if existsb is_brace_arg args then head_notb TBracketBegin rest
    else stopsb TBracketBegin rest).
@@ -221,16 +246,67 @@ Proof. reflexivity. Qed.
    the name group), so this condition is sufficient, not necessary - e.g.
    `\begin{q}x\end{q}{y}` is read as the grammar would say, but an unclosed
    `{` after `\end{q}` makes the PEEK fail in strict mode. *)
-Theorem C02pp_follows_ok_env : forall e b ng body e2 en ng2 rest,
-  follows_ok (DEnv e b ng body e2 en ng2) rest = cmd_follow [ng2] rest.
+Theorem C02pp_follows_ok_env : forall SK e b ng body e2 en ng2 rest,
+  follows_ok SK (DEnv e b ng body e2 en ng2) rest = cmd_follow [ng2] rest.
 Proof. reflexivity. Qed.
 
-Theorem C02pp_follows_ok_other : forall d rest,
-  match d with
-  | DCmd _ _ _ | DEnv _ _ _ _ _ _ _ => True
-  | _ => follows_ok d rest = true
+(* an item followed by `rest`:
+   - the command part `\item <args>` is followed by body ++ rest as a command
+     with these arguments may be (a body starting with ` {` would be taken as
+     an argument);
+   - the body is a well-formed sequence for the item loop, which ends where
+     `rest` begins; it is ALWAYS read strictly, in non-math mode and without
+     skip list (read_item passes none of the three on);
+   - `rest` is where read_item stops: empty, or starting with `}`, or with an
+     escape followed by a token named `end` or `item` (in particular an item
+     that is the last element of a bracket group or of a math region does NOT
+     stop: it swallows the closer). *)
+Theorem C02pp_follows_ok_item : forall SK e n args body rest,
+  follows_ok SK (DItem e n args body) rest =
+  cmd_follow args (flat_list body ++ rest) && wf_seq SK false CItem body rest &&
+  item_stop_b rest.
+Proof. exact follows_ok_item. Qed.
+
+Theorem C02pp_item_stop_b : forall rest,
+  item_stop_b rest =
+  match rest with
+  | [] => true
+  | t :: tl =>
+    if is_tc TEscape t
+    then match tl with
+         | n :: _ => str_eqb (ttext n) s_end || str_eqb (ttext n) s_item
+         | [] => false
+         end
+    else is_tc TGroupEnd t
   end.
-Proof. intros [t|o b c|e n a|k o b c|e b ng body e2 en ng2] rest; exact I || reflexivity. Qed.
+Proof. reflexivity. Qed.
+
+(* one more condition for items, not a boolean: before it looks at the name
+   after an escape, read_item READS the whole command there (name and all
+   argument groups), strictly and in non-math mode; that read must succeed.
+   Inside a well-formed sequence this follows from the well-formedness of the
+   next item / of the `\end <name group>` and is discharged in the proofs of
+   the sequence theorems (C02pp_group_body ... C02_structure_partial have no
+   such hypothesis); it remains a hypothesis of the single-element theorem
+   C02pp_expr only. *)
+Theorem C02pp_peek_ok : forall d R,
+  peek_ok d R =
+  if is_item d
+  then forall e src, R = e :: src -> is_tc TEscape e = true ->
+       exists r f0, forall f, (f0 <= f)%nat ->
+                    read_command f (-1) (-1) 1 true MNonMath R = Ok r
+  else True.
+Proof. reflexivity. Qed.
+
+Theorem C02pp_follows_ok_other : forall SK d rest,
+  match d with
+  | DCmd _ _ _ | DEnv _ _ _ _ _ _ _ | DItem _ _ _ _ => True
+  | _ => follows_ok SK d rest = true
+  end.
+Proof.
+  intros SK [t|o b c|e n a|k o b c|e b ng body e2 en ng2|e n a body] rest;
+    exact I || reflexivity.
+Qed.
 
 Theorem C02pp_stopsb : forall k toks,
   stopsb k toks =
@@ -254,6 +330,22 @@ Theorem C02pp_first_pass_follow_only_refuted :
 Proof. exact PP_first_pass_follow_only_refuted. Qed.
 Print Assumptions C02pp_first_pass_follow_only_refuted.
 
+(* \item in math mode: AssertionError in both tolerance modes ($\item a$) *)
+Theorem C02pp_item_in_math_refuted :
+  flat_list bad3_doc = fst (tokens_of_string bad3_src) /\
+  parse_tokens (flat_list bad3_doc) true [] = Err AssertionError /\
+  parse_tokens (flat_list bad3_doc) false [] = Err AssertionError.
+Proof. exact PP_item_in_math_refuted. Qed.
+Print Assumptions C02pp_item_in_math_refuted.
+
+(* an item at the end of a bracket group swallows the `]`  (\a[\item x]) *)
+Theorem C02pp_item_in_bracket_group_refuted :
+  flat_list bad4_doc = fst (tokens_of_string bad4_src) /\
+  parse_tokens (flat_list bad4_doc) true [] = Err TypeError /\
+  parse_tokens (flat_list bad4_doc) false [] <> Ok (ERoot (map tree bad4_doc)).
+Proof. exact PP_item_in_bracket_group_refuted. Qed.
+Print Assumptions C02pp_item_in_bracket_group_refuted.
+
 (* the condition on SK cannot be dropped: with `q` in the user's skip list
    the environment q of example 3 is read verbatim *)
 Theorem C02pp_env_in_skip_list_refuted :
@@ -270,7 +362,7 @@ Print Assumptions C02pp_env_in_skip_list_refuted.
 Theorem C02pp_expr :
   forall SK d skip strict m rest f,
     mode_is_special m = false -> sub_skip SK skip ->
-    wf SK (mode_is_math m) d = true -> follows_ok d rest = true ->
+    wf SK (mode_is_math m) d = true -> follows_ok SK d rest = true -> peek_ok d rest ->
     (3 * length (flat d ++ rest) + 1 <= f)%nat ->
     read_expr f skip strict m (flat d ++ rest) = Ok (tree d, rest).
 Proof. exact PP_expr. Qed.
@@ -313,7 +405,9 @@ Print Assumptions C02_structure_partial.
    a spacer, names are unpadded and the structural tokens carry their
    delimiter text (tok_wf: true of all tokenizer output, Proofs/ConsBridge.v) *)
 Theorem C02pp_estr_tree :
-  forall SK mm d, wf SK mm d = true -> printable d = true -> Forall tok_wf (flat d) ->
+  forall SK mm d rest,
+    wf SK mm d = true -> follows_ok SK d rest = true ->
+    printable d = true -> Forall tok_wf (flat d) ->
     estr (tree d) = texts (flat d).
 Proof. exact estr_tree. Qed.
 Print Assumptions C02pp_estr_tree.
@@ -367,13 +461,36 @@ Proof.
   apply tok_wfb_all. vm_compute. reflexivity.
 Qed.
 
-(* hypotheses of the element / body theorems on pieces of ex1 *)
+(* \begin{q}\item a $b$\item[x] c {\item d}\end{q}e : two items in an
+   environment (the second with a bracket argument), one item in a group *)
+Example C02pp_ex4 :
+  ex4_src = [92;98;101;103;105;110;123;113;125;92;105;116;101;109;32;97;32;36;98;36;92;105;116;101;109;91;120;93;32;99;32;123;92;105;116;101;109;32;100;125;92;101;110;100;123;113;125;101]%N /\
+  tokens_of_string ex4_src = (flat_list ex4_doc, TEnd) /\
+  wf_seq (all_skip []) false CTop ex4_doc [] = true /\ forallb printable ex4_doc = true /\
+  Forall tok_wf (flat_list ex4_doc) /\
+  parse ex4_src true [] = Ok (ERoot (map tree ex4_doc)) /\
+  parse ex4_src false [] = Ok (ERoot (map tree ex4_doc)) /\
+  estr (ERoot (map tree ex4_doc)) = ex4_src.
+Proof.
+  repeat split; try (vm_compute; reflexivity).
+  apply tok_wfb_all. vm_compute. reflexivity.
+Qed.
+
+(* hypotheses of the element / body theorems on pieces of ex1 and ex4 *)
 Example C02pp_ex_expr :
   match ex1_doc with
-  | d :: ds => wf (all_skip []) false d = true /\ follows_ok d (flat_list ds) = true
+  | d :: ds => wf (all_skip []) false d = true /\
+               follows_ok (all_skip []) d (flat_list ds) = true /\ peek_ok d (flat_list ds)
   | [] => False
   end.
 Proof. exact ex_PP_expr_hyps. Qed.
+Example C02pp_ex_expr_item :
+  let t i := nth i ex4_toks tok0 in
+  let d := DItem (t 5%nat) (t 6%nat) []
+                 [DLeaf (t 7%nat); DMath MInline (t 8%nat) [DLeaf (t 9%nat)] (t 10%nat)] in
+  let rest := skipn 11 ex4_toks in
+  wf (all_skip []) false d = true /\ follows_ok (all_skip []) d rest = true /\ peek_ok d rest.
+Proof. exact ex_PP_expr_item_hyps. Qed.
 Example C02pp_ex_group_body :
   let t i := nth i ex1_toks tok0 in
   wf_seq (all_skip []) false (CGroup GBrace)
